@@ -26,8 +26,10 @@ package lastgersync
 //@   props C16
 //@   requires d != nil && d.EVMDownloaderImplementation != nil
 //@   requires scanNext == fromBlock && !scanGap
-//@   modifies heap, scanNext, scanGap, lastHead
+//@   modifies heap, scanNext, scanGap, lastHead, ctxEnded
 //@   ensures[no-block-skipped] !scanGap
+// the scan is left only through the Done case of its own context (no error of a query ends the index's feed)
+//@   ensures[stops-only-when-its-context-ended] ctxEnded
 //@   loop 0 invariant !scanGap && scanNext == fromBlock && d != nil && d.EVMDownloaderImplementation != nil
 //@   loop 1 invariant !scanGap && d != nil && d.EVMDownloaderImplementation != nil && 0 <= rangeindex + 1
 
